@@ -36,6 +36,22 @@ pub fn base_script(name: &str) -> (Instr, Vec<String>) {
             ]),
             vec!["A".into(), "M".into(), "B".into()],
         ),
+        // fold over a stream with par/next, values from A and M: fold lore, generations, par sizes
+        "SM4" => (
+            seqs(vec![
+                call(peer("A"), "t", "f1@$s", vec![], "$s"),
+                call(peer("M"), "t", "f2@$s", vec![], "$s"),
+                Instr::Ap { src: lit_s("lit"), dst: "$s".into() },
+                Instr::Fold {
+                    it: var("$s"),
+                    x: "i".into(),
+                    i: Box::new(par(call(peer("B"), "t", "f3", vec![var("i")], ""), Instr::Next { x: "i".into() })),
+                    last: Box::new(Instr::Absent),
+                },
+                call(peer("A"), "t", "f4", vec![], ""),
+            ]),
+            vec!["A".into(), "M".into(), "B".into()],
+        ),
         // stream values and a canon by an honest peer, relayed by M
         _ => (
             seqs(vec![
@@ -217,6 +233,137 @@ fn apply_op(dj: &mut J, op: &str, i: usize, j: usize, peers: &Peers) -> bool {
             dj["trace"][i] = json!({"call": {"sent_by": {"PeerId": peers.id_of("M")}}});
             true
         }
+        // ---- structural attacks on the parts no signature covers (C01)
+        "par_sizes" => {
+            if i >= n || dj["trace"][i].get("par").is_none() {
+                return false;
+            }
+            let v: u64 = match j { 0 => 0, 1 => 1, 2 => 7, 3 => 1 << 31, 4 => u32::MAX as u64, _ => 1000 };
+            let which = if j % 2 == 0 { 0 } else { 1 };
+            dj["trace"][i]["par"][which] = json!(v);
+            true
+        }
+        "par_both" => {
+            if i >= n || dj["trace"][i].get("par").is_none() {
+                return false;
+            }
+            let v: u64 = match j { 0 => 0, 1 => u32::MAX as u64, 2 => (u32::MAX as u64) - 1, _ => 1 << 31 };
+            dj["trace"][i]["par"] = json!([v, v]);
+            true
+        }
+        "generation" => {
+            let v: u64 = match j { 0 => 0, 1 => 1, 2 => 0xCAFEBABE, 3 => u32::MAX as u64, 4 => (u32::MAX as u64) - 1, _ => 100000 };
+            if i >= n {
+                return false;
+            }
+            if dj["trace"][i].pointer("/call/executed/stream").is_some() {
+                dj["trace"][i]["call"]["executed"]["stream"]["generation"] = json!(v);
+                true
+            } else if dj["trace"][i].get("ap").is_some() {
+                dj["trace"][i]["ap"]["gens"] = json!([v]);
+                true
+            } else {
+                false
+            }
+        }
+        "ap_gens_shape" => {
+            if i >= n || dj["trace"][i].get("ap").is_none() {
+                return false;
+            }
+            dj["trace"][i]["ap"]["gens"] = if j == 0 { json!([]) } else { json!([0, 1, 2]) };
+            true
+        }
+        "lore" => {
+            if i >= n || dj["trace"][i].get("fold").is_none() {
+                return false;
+            }
+            let lore = dj["trace"][i]["fold"]["lore"].as_array().cloned().unwrap_or_default();
+            if lore.is_empty() {
+                return false;
+            }
+            let big = u32::MAX as u64;
+            match j {
+                0 => dj["trace"][i]["fold"]["lore"][0]["pos"] = json!(big),
+                1 => dj["trace"][i]["fold"]["lore"][0]["desc"][0]["pos"] = json!(big),
+                2 => dj["trace"][i]["fold"]["lore"][0]["desc"][0]["len"] = json!(big),
+                3 => dj["trace"][i]["fold"]["lore"][0]["desc"][1]["pos"] = json!(big - 1),
+                4 => dj["trace"][i]["fold"]["lore"][0]["desc"][1]["len"] = json!(1 << 31),
+                5 => {
+                    // duplicate value position
+                    let first = lore[0].clone();
+                    dj["trace"][i]["fold"]["lore"].as_array_mut().unwrap().push(first);
+                }
+                6 => dj["trace"][i]["fold"]["lore"][0]["pos"] = json!(0),
+                7 => dj["trace"][i]["fold"]["lore"][0]["desc"] = json!([]),
+                8 => dj["trace"][i]["fold"]["lore"] = json!([]),
+                _ => dj["trace"][i]["fold"]["lore"][0]["desc"][0]["len"] = json!(0),
+            }
+            true
+        }
+        "drop_store_entry" => {
+            // remove what the state at i references from one of the stores (the store stays self-consistent for j = 0)
+            let st = dj["trace"].get(i).cloned().unwrap_or(J::Null);
+            let sr = st.pointer("/call/executed/scalar").or(st.pointer("/call/executed/stream/cid")).or(st.pointer("/call/failed")).and_then(|c| c.as_str()).map(|s| s.to_string());
+            if let Some(c) = sr {
+                let agg = dj["cid_info"]["service_result_store"].get(&c).cloned().unwrap_or(J::Null);
+                match j {
+                    0 => dj["cid_info"]["service_result_store"].as_object_mut().map(|o| o.remove(&c)).is_some(),
+                    1 => {
+                        let v = agg["value_cid"].as_str().unwrap_or("").to_string();
+                        dj["cid_info"]["value_store"].as_object_mut().map(|o| o.remove(&v)).is_some()
+                    }
+                    _ => {
+                        let t = agg["tetraplet_cid"].as_str().unwrap_or("").to_string();
+                        dj["cid_info"]["tetraplet_store"].as_object_mut().map(|o| o.remove(&t)).is_some()
+                    }
+                }
+            } else if let Some(c) = st.pointer("/canon/executed").and_then(|c| c.as_str()).map(|s| s.to_string()) {
+                match j {
+                    0 => dj["cid_info"]["canon_result_store"].as_object_mut().map(|o| o.remove(&c)).is_some(),
+                    _ => {
+                        let els: Vec<String> = dj["cid_info"]["canon_result_store"][&c]["values"].as_array().cloned().unwrap_or_default().iter().filter_map(|x| x.as_str().map(|s| s.to_string())).collect();
+                        match els.first() {
+                            Some(e) => dj["cid_info"]["canon_element_store"].as_object_mut().map(|o| o.remove(e)).is_some(),
+                            None => false,
+                        }
+                    }
+                }
+            } else {
+                false
+            }
+        }
+        "raw_not_json" => i < n && rewrite_result(dj, i, &|raw, _t, _a| *raw = J::String("not json{".into())),
+        "kind_swap" => {
+            if i >= n {
+                return false;
+            }
+            dj["trace"][i] = match j {
+                0 => json!({"par": [1, 1]}),
+                1 => json!({"ap": {"gens": [0]}}),
+                2 => json!({"fold": {"lore": []}}),
+                3 => json!({"canon": {"sent_by": peers.id_of("M")}}),
+                4 => json!({"call": {"sent_by": {"PeerIdWithCallId": {"peer_id": peers.id_of("B"), "call_id": 1}}}}),
+                _ => json!({"call": {"executed": {"unused": "bagaaihraforgedforgedforgedforgedforgedforgedforgedforgedforged"}}}),
+            };
+            true
+        }
+        "truncate" => {
+            if i >= n {
+                return false;
+            }
+            dj["trace"].as_array_mut().map(|a| a.truncate(i)).is_some()
+        }
+        "duplicate_state" => {
+            if i >= n {
+                return false;
+            }
+            let s = dj["trace"][i].clone();
+            dj["trace"].as_array_mut().map(|a| a.insert(i, s)).is_some()
+        }
+        "lcid" => {
+            dj["lcid"] = json!(match j { 0 => 0u64, 1 => u32::MAX as u64, _ => (u32::MAX as u64) - 1 });
+            true
+        }
         "drop_sig" | "swap_sig" => {
             let a = peers.kp_of("A");
             let pk_a = air_interpreter_signatures::PublicKey::new(a.public()).to_string();
@@ -281,6 +428,8 @@ pub fn cmd_attack(args: &[String]) -> i32 {
     let f = std::fs::File::open(&inp).expect("open input");
     let mut w = BufWriter::new(std::fs::File::create(&outp).expect("create output"));
     let mut nrec = 0u64;
+    let skip = crate::arg(args, "--skip").and_then(|s| s.parse::<u64>().ok()).unwrap_or(0);
+    let journal = crate::arg(args, "--journal");
     let mut bases: std::collections::HashMap<String, Net> = std::collections::HashMap::new();
     for line in std::io::BufReader::new(f).lines() {
         let line = line.expect("read");
@@ -294,6 +443,14 @@ pub fn cmd_attack(args: &[String]) -> i32 {
                 return 2;
             }
         };
+        if nrec < skip {
+            nrec += 1;
+            continue;
+        }
+        if let Some(jp) = &journal {
+            // the case about to run, so that the wrapper knows which input killed the process
+            let _ = std::fs::write(jp, format!("{}\n{}\n", nrec + 1, line));
+        }
         let base = c["base"].as_str().unwrap_or("SM1").to_string();
         if !bases.contains_key(&base) {
             bases.insert(base.clone(), honest_prefix(&peers, &base));
@@ -361,6 +518,7 @@ pub fn cmd_attack(args: &[String]) -> i32 {
                     "data": pr.data, "decodes": pr.decodes, "msg": net::truncate(&o.msg, 200), "nnext": o.next.len()}});
         serde_json::to_writer(&mut w, &rec).unwrap();
         w.write_all(b"\n").unwrap();
+        w.flush().unwrap();
     }
     w.flush().unwrap();
     println!("{}", json!({"cases": nrec}));
